@@ -4,9 +4,11 @@ package symx
 // go/ssa interpreter, one Engine (interpreter + solver process) per worker.
 
 import (
+	"crypto/sha1"
 	"fmt"
 	"go/token"
 	"go/types"
+	"reflect"
 	"math/big"
 	"os"
 	"runtime"
@@ -145,6 +147,9 @@ type HarnessSpec struct {
 	KeepObs    bool
 	FullFeasMs int // >0: also try branch feasibility under the full (nonlinear) path condition with this cap
 	Tier       string
+	GlobalsRead  map[string]bool // with CheckGlobals: only variables whose value some non-init function uses are reported
+	CheckGlobals string // package path prefix: package-level variables under it must be unchanged when a path ends (C19: no state in process memory)
+	AssertPrefix string // meta-checks: only assertions whose label has this prefix are checked (the wrapped scenario's own are another property's)
 }
 
 type Violation struct {
@@ -197,6 +202,7 @@ type HarnessResult struct {
 
 type PathObs struct {
 	PC    []string
+	Neg   []string // negations of the branch literals of PC (syntactic contradiction filter of the product)
 	Decls []string
 	Obs   map[string]string
 	Model map[string]string
@@ -445,7 +451,22 @@ func (e *Engine) declare(name string) {
 func (e *Engine) freshVar(hint string) *Term {
 	e.fresh++
 	n := fmt.Sprintf("|%s!%d|", hint, e.fresh)
+	if e.spec != nil && e.spec.MapOrder != 0 {
+		// second run of a two-run product: environment reads (wall clock) are independent of the first run's
+		n = fmt.Sprintf("|%s!%d!r|", hint, e.fresh)
+	}
 	e.declare(n)
+	return V(n)
+}
+
+// keyedVar: the auxiliary variable of a rounding, named by the content of its operands, so that the same
+// rounding has the same name on every path and in both runs of a product (and different roundings never share one).
+func (e *Engine) keyedVar(hint, key string) *Term {
+	h := sha1.Sum([]byte(key))
+	n := fmt.Sprintf("|%s!%x|", hint, h[:8])
+	if !e.declSet[n] {
+		e.declare(n)
+	}
 	return V(n)
 }
 
@@ -710,6 +731,9 @@ func (e *Engine) stat(label string) *AssertStat {
 // assertExcept: c must hold; if finding is an active known finding, assignments
 // satisfying pred are reported as KNOWN-FINDING instead of violations.
 func (e *Engine) assertExcept(c *Term, label, finding string, pred *Term) {
+	if e.spec.AssertPrefix != "" && !strings.HasPrefix(label, e.spec.AssertPrefix) {
+		return
+	}
 	e.res.mu.Lock()
 	st := e.stat(label)
 	st.Checked++
@@ -769,8 +793,30 @@ func (e *Engine) observe(name string, t *Term) {
 
 // finishPath runs when the harness returned normally: extract a witness if wanted.
 func (e *Engine) finishPath() {
+	if p := e.spec.CheckGlobals; p != "" {
+		var names []string
+		for g, old := range e.snap {
+			if g.Pkg == nil || !strings.HasPrefix(g.Pkg.Pkg.Path(), p) {
+				continue
+			}
+			if !deepEq(*e.I.globals[g], old, map[[2]*value]bool{}) {
+				names = append(names, g.Pkg.Pkg.Path()+"."+g.Name())
+			}
+		}
+		sort.Strings(names)
+		for _, n := range names {
+			if e.spec.GlobalsRead != nil && !e.spec.GlobalsRead[n] {
+				continue // write-only (e.g. a counter nobody reads): cannot influence the state transition
+			}
+			e.assertExcept(TBool(false), "C19 restart: package-level variable "+n+" is modified by block processing (state kept in process memory does not survive a restart)", "", nil)
+		}
+		e.assertExcept(TBool(true), "C19 restart: no package-level variable of the Elys modules is modified by block processing", "", nil)
+	}
 	if e.res.KeepPathObs {
 		po := PathObs{PC: e.exactStrings(), Decls: append([]string{}, e.decls...), Obs: map[string]string{}}
+		for _, t := range e.pc {
+			po.Neg = append(po.Neg, Not(t).String())
+		}
 		for _, o := range e.obs {
 			po.Obs[o[0]] = o[1]
 		}
@@ -1058,6 +1104,125 @@ func deepCopyM(v value, memo map[*value]*value) value {
 	return v
 }
 
+// deepEq: structural equality of two value trees (pointer structure followed, cycles cut).
+func deepEq(a, b value, seen map[[2]*value]bool) bool {
+	switch x := a.(type) {
+	case *value:
+		y, ok := b.(*value)
+		if !ok {
+			return false
+		}
+		if x == nil || y == nil {
+			return x == y
+		}
+		k := [2]*value{x, y}
+		if seen[k] {
+			return true
+		}
+		seen[k] = true
+		return deepEq(*x, *y, seen)
+	case structure:
+		y, ok := b.(structure)
+		if !ok || len(x) != len(y) {
+			return false
+		}
+		for i := range x {
+			if !deepEq(x[i], y[i], seen) {
+				return false
+			}
+		}
+		return true
+	case array:
+		y, ok := b.(array)
+		if !ok || len(x) != len(y) {
+			return false
+		}
+		for i := range x {
+			if !deepEq(x[i], y[i], seen) {
+				return false
+			}
+		}
+		return true
+	case []value:
+		y, ok := b.([]value)
+		if !ok || len(x) != len(y) {
+			return false
+		}
+		for i := range x {
+			if !deepEq(x[i], y[i], seen) {
+				return false
+			}
+		}
+		return true
+	case tuple:
+		y, ok := b.(tuple)
+		if !ok || len(x) != len(y) {
+			return false
+		}
+		for i := range x {
+			if !deepEq(x[i], y[i], seen) {
+				return false
+			}
+		}
+		return true
+	case iface:
+		y, ok := b.(iface)
+		if !ok || (x.t == nil) != (y.t == nil) || (x.t != nil && !types.Identical(x.t, y.t)) {
+			return false
+		}
+		return deepEq(x.v, y.v, seen)
+	case map[value]value:
+		y, ok := b.(map[value]value)
+		if !ok || len(x) != len(y) {
+			return false
+		}
+		for k, v := range x {
+			w, ok := y[k]
+			if !ok || !deepEq(v, w, seen) {
+				return false
+			}
+		}
+		return true
+	case *hashmap:
+		y, ok := b.(*hashmap)
+		if !ok {
+			return false
+		}
+		if x == nil || y == nil {
+			return x == y
+		}
+		ex, ey := x.sortedEntries(), y.sortedEntries()
+		if len(ex) != len(ey) {
+			return false
+		}
+		for i := range ex {
+			if !deepEq(ex[i].key, ey[i].key, seen) || !deepEq(ex[i].value, ey[i].value, seen) {
+				return false
+			}
+		}
+		return true
+	case *closure:
+		y, ok := b.(*closure)
+		if !ok {
+			return false
+		}
+		if x == nil || y == nil {
+			return x == y
+		}
+		return x.Fn == y.Fn
+	case SymInt:
+		y, ok := b.(SymInt)
+		return ok && x.T.String() == y.T.String()
+	case SymBool:
+		y, ok := b.(SymBool)
+		return ok && x.T.String() == y.T.String()
+	case BigCell:
+		y, ok := b.(BigCell)
+		return ok && x.T.String() == y.T.String()
+	}
+	return reflect.DeepEqual(a, b)
+}
+
 func deepCopy(v value) value { return deepCopyM(v, map[*value]*value{}) }
 
 // sortedEntries returns the entries of a hashmap in a deterministic order.
@@ -1080,60 +1245,117 @@ var _ = os.Stderr
 // Product compares two runs of one harness (map iteration order sorted vs
 // reversed) path by path: sat(pcA ∧ pcB ∧ some observation differs) is a
 // determinism violation.
-func Product(s *Solver, a, b *HarnessResult) (pairs int, viol []Violation) {
-	for _, pa := range a.PathObs {
-		for _, pb := range b.PathObs {
-			pairs++
-			seen := map[string]bool{}
-			var decls []string
-			for _, d := range append(append([]string{}, pa.Decls...), pb.Decls...) {
-				if !seen[d] {
-					seen[d] = true
-					decls = append(decls, d)
+type ProductStats struct {
+	Pairs, Contradictory, Identical, Unsat, Sat, Unknown int
+}
+
+func Product(mk func() *Solver, workers int, a, b *HarnessResult) (st ProductStats, viol []Violation) {
+	type job struct{ pa, pb *PathObs }
+	jobs := make(chan job, 64)
+	var mu sync.Mutex
+	var wg sync.WaitGroup
+	for w := 0; w < workers; w++ {
+		wg.Add(1)
+		go func() {
+			defer wg.Done()
+			var s *Solver
+			defer func() {
+				if s != nil {
+					s.Close()
 				}
-			}
-			var diffs []string
-			keys := map[string]bool{}
-			for k := range pa.Obs {
-				keys[k] = true
-			}
-			for k := range pb.Obs {
-				keys[k] = true
-			}
-			for k := range keys {
-				va, oka := pa.Obs[k]
-				vb, okb := pb.Obs[k]
-				if !oka || !okb {
-					diffs = append(diffs, "true")
-				} else if va != vb {
-					diffs = append(diffs, "(not (= "+va+" "+vb+"))")
-				}
-			}
-			if len(diffs) == 0 {
-				// identical observation terms: still must be co-reachable to matter; nothing to compare
-				continue
-			}
-			asserts := append(append([]string{}, pa.PC...), pb.PC...)
-			asserts = append(asserts, "(or false "+strings.Join(diffs, " ")+")")
-			r := s.Check(decls, asserts, 60000)
-			if r == "sat" {
-				var names []string
-				for _, d := range decls {
-					names = append(names, strings.Fields(d)[1])
-				}
-				m := s.LastModel(names)
-				nm := map[string]string{}
-				for k, v := range m {
-					if !strings.Contains(k, "!") {
-						nm[k] = v
+			}()
+			for j := range jobs {
+				pa, pb := j.pa, j.pb
+				seen := map[string]bool{}
+				var decls []string
+				for _, d := range append(append([]string{}, pa.Decls...), pb.Decls...) {
+					if !seen[d] {
+						seen[d] = true
+						decls = append(decls, d)
 					}
 				}
-				if len(viol) < 3 {
-					viol = append(viol, Violation{Harness: a.Spec.Name, Label: "determinism: outputs differ between map iteration orders", Model: nm, Kind: "product", Exact: true,
-						Detail: "two-run product: same inputs, map iteration order sorted vs reversed"})
+				var diffs []string
+				keys := map[string]bool{}
+				for k := range pa.Obs {
+					keys[k] = true
+				}
+				for k := range pb.Obs {
+					keys[k] = true
+				}
+				for k := range keys {
+					va, oka := pa.Obs[k]
+					vb, okb := pb.Obs[k]
+					if !oka || !okb {
+						diffs = append(diffs, "true")
+					} else if va != vb {
+						diffs = append(diffs, "(not (= "+va+" "+vb+"))")
+					}
+				}
+				if len(diffs) == 0 {
+					mu.Lock()
+					st.Identical++
+					mu.Unlock()
+					continue
+				}
+				sort.Strings(diffs)
+				asserts := append(append([]string{}, pa.PC...), pb.PC...)
+				asserts = append(asserts, "(or false "+strings.Join(diffs, " ")+")")
+				if s == nil {
+					s = mk()
+				}
+				r := s.Check(decls, asserts, 60000)
+				mu.Lock()
+				switch r {
+				case "unsat":
+					st.Unsat++
+				case "sat":
+					st.Sat++
+					var names []string
+					for _, d := range decls {
+						names = append(names, strings.Fields(d)[1])
+					}
+					m := s.LastModel(names)
+					nm := map[string]string{}
+					for k, v := range m {
+						if !strings.Contains(k, "!") {
+							nm[k] = v
+						}
+					}
+					if len(viol) < 3 {
+						viol = append(viol, Violation{Harness: a.Spec.Name, Label: "C19 determinism: two runs with the same inputs leave different state", Model: nm, Kind: "product", Exact: true,
+							Detail: "two-run product: same inputs, map iteration order sorted vs reversed, wall-clock reads independent"})
+					}
+				default:
+					st.Unknown++
+				}
+				mu.Unlock()
+			}
+		}()
+	}
+	for i := range a.PathObs {
+		pa := &a.PathObs[i]
+		lits := map[string]bool{}
+		for _, l := range pa.PC {
+			lits[l] = true
+		}
+		for k := range b.PathObs {
+			pb := &b.PathObs[k]
+			st.Pairs++
+			contra := false
+			for _, n := range pb.Neg {
+				if lits[n] {
+					contra = true
+					break
 				}
 			}
+			if contra {
+				st.Contradictory++
+				continue
+			}
+			jobs <- job{pa, pb}
 		}
 	}
+	close(jobs)
+	wg.Wait()
 	return
 }
